@@ -67,3 +67,33 @@ Example C01_diamond :
               [Deliver 1; Deliver 0; Complete 1; Complete 2; Deliver 1; Deliver 0] = Some s
             /\ quiescentb 4 s = true /\ out s 3 = 30%Z.
 Proof. split; [reflexivity|]. eexists. split; [vm_compute; reflexivity|]. split; vm_compute; reflexivity. Qed.
+
+(* ---- the wait loop against the executor callbacks, list access by list access (Poll.v) ------------
+   Dag.v takes "the parent keeps going while a signal is pending or a job is out" as its loop.  The
+   code decides that with two separate reads (running_children, then signal_queue) while the
+   callbacks of finishing jobs append to the queue and then un-register on other threads.  For EVERY
+   interleaving of those accesses, and whatever delivering a signal enqueues or hands out, the loop
+   exits only when nothing is out, no callback is unfinished and the queue is empty -- i.e. only in
+   the quiescent states C01_dag_run_correct speaks about. *)
+From PW Require Import Poll PollProofs.
+
+Theorem C01_wait_loop_exits_only_when_quiescent : forall enq starts ops,
+  nodupb Nat.eqb (map fst starts) = true ->
+  let s := prun false false (pinit false enq starts) ops in
+  pc s = PExit -> running s = [] /\ workers s = [] /\ Poll.queue s = 0.
+Proof. exact poll_exit_quiescent. Qed.
+Print Assumptions C01_wait_loop_exits_only_when_quiescent.
+
+(* Both orders are needed: with the reads swapped, or with the callback un-registering before it
+   enqueues, some interleaving exits with a signal still queued (its receiver never runs). *)
+Theorem C01_wait_loop_read_order_needed :
+  exists ops, let s := prun true false (pinit true 0 [(0, 1)]) ops in
+              pc s = PExit /\ Poll.queue s = 1 /\ bad s = false.
+Proof. exact poll_queue_first_refuted. Qed.
+Print Assumptions C01_wait_loop_read_order_needed.
+
+Theorem C01_callback_write_order_needed :
+  exists ops, let s := prun false true (pinit false 0 [(0, 1)]) ops in
+              pc s = PExit /\ Poll.queue s = 1 /\ bad s = false.
+Proof. exact poll_unregister_first_refuted. Qed.
+Print Assumptions C01_callback_write_order_needed.
